@@ -98,16 +98,17 @@ def _other_type(draw, v):
 
 # ----------------------------------------------------------------------------------------------
 TYPED_ZOO = {
-    "float": ["nan", "inf", "-inf", "float_subclass", "float_max", "float_tiny", "-0.0"],
-    "int": ["true", "false", "int_2_64", "int_neg_2_64", "int_10_400", "int_neg_10_400", "int_subclass"],
+    "float": ["nan", "inf", "-inf", "float_subclass", "float_max", "float_tiny", "-0.0", "decimal", "fraction", "int_2_53_1"],
+    "int": ["true", "false", "int_2_64", "int_neg_2_64", "int_10_400", "int_neg_10_400", "int_subclass", "decimal", "fraction"],
     "bool": ["true", "false", "int_subclass"],
     "str": ["str_subclass", "str_surrogate", "str_nul", "str_long", "empty_str"],
     "bytes": ["bytes_subclass", "bytes_long", "bytearray", "memoryview"],
-    "list": ["list_subclass", "list_nested", "empty_list", "tuple", "range", "list_1001_strs", "userlist"],
+    "list": ["list_subclass", "list_nested", "empty_list", "tuple", "range", "list_1001_strs", "userlist", "deque", "deque_1001"],
     "dict": ["dict_subclass", "ordereddict", "defaultdict", "dict_nonstr_keys", "empty_dict", "dict_twin_nan_keys", "dict_ellipsis_key", "dict_ellipsis_entry",
              "dict_1001_keys", "mappingproxy", "userdict", "chainmap"],
     "uuid4": ["uuid1", "uuid3", "uuid5", "uuid_nil", "uuid4"],
-    "datetime": ["datetime_aware", "datetime_naive", "datetime_min", "datetime_max", "date_max", "time"],
+    "datetime": ["datetime_aware", "datetime_naive", "datetime_min", "datetime_max", "date_max", "time",
+                 "datetime_max_minus3h", "datetime_min_plus3h"],
     "date": ["datetime_naive", "datetime_aware", "date_min", "date_max", "datetime_max"],
     "none": ["nil", "ellipsis", "notimplemented", "false"],
 }
@@ -267,6 +268,7 @@ def _gen_float(draw, spec, mut):
                  float("inf"), float("-inf"), float("nan")]
         if v == int(v) and abs(v) < 2 ** 53:
             cands.append(int(v))
+        cands += [2 ** 53 + 1, 10 ** 22 + 1]          # whole numbers no float equals
         if "value" in spec:
             step = 3 * 10.0 ** -(p if p is not None else 4)
             cands += [v + step, v - step, math.nextafter(v, math.inf), v * (1 + 1e-13)]
@@ -797,6 +799,13 @@ ZOO = {
     "str_surrogate": lambda: "\ud800", "str_nul": lambda: "a\0b", "str_long": lambda: "x" * 5000,
     "bytes_long": lambda: b"\xff" * 100, "list_nested": lambda: [[[]]],
     "dict_nonstr_keys": lambda: {None: 1, (1, 2): 2, 1.5: 3, b"k": 4, frozenset(): 5},
+    # sequences that are not lists (a deque is a registered Sequence that cannot be sliced)
+    "deque": lambda: collections.deque([1, "a"]), "deque_1001": lambda: collections.deque(range(1001)),
+    "array": lambda: __import__("array").array("i", [1, 2, 3]),
+    # aware datetimes within their UTC offset of the ends of the datetime range (conversion to UTC overflows)
+    "datetime_max_minus3h": lambda: _dt.datetime.max.replace(tzinfo=_dt.timezone(_dt.timedelta(hours=-3))),
+    "datetime_min_plus3h": lambda: _dt.datetime.min.replace(tzinfo=_dt.timezone(_dt.timedelta(hours=3))),
+    "int_2_53_1": lambda: 2 ** 53 + 1,
     # the Ellipsis object is hashable: it can be a key (or a member) of a *value* too
     "dict_ellipsis_key": lambda: {"a": 1, ...: 1}, "dict_ellipsis_entry": lambda: {"a": 1, ...: ...},
     "list_of_ellipsis": lambda: [..., 1, ...],
